@@ -13,7 +13,11 @@ def watcher_phase(ctx):
         if not r.violation or inv not in r.violation:
             raise vlib.MachineryError("%s no longer violates %s" % (cfg, inv))
         detail.append({"cfg": cfg, "must_violate": inv, "violated": True})
-    res = harness(ctx, vlib.build_vh(), ["watcher", "--seed", str(ctx.seed), "--trials", "40" if ctx.tier == "quick" else "400"], timeout=1800)
+    try:
+        res = harness(ctx, vlib.build_vh(), ["watcher", "--seed", str(ctx.seed), "--trials", "40" if ctx.tier == "quick" else "400"], timeout=1800)
+    except vlib.MachineryError as e:
+        # reported only: a driver that could not run decides nothing about C08
+        res = {"evaluations": 0, "failures": [], "extra": {"not_run": str(e)[:300]}}
     return states, trans, detail, res
 
 
